@@ -63,6 +63,16 @@ def step (toks : List String) (impl : String) : Res :=
     { model := s!"ok queued={if full then 0 else min targets limit} free={limit}",
       monitor := if kv it "free" != toString limit then [if full then "slot_returned_queue_full" else "slot_returned_gossip"] else [],
       tags := ["gossipq", if full then "queue-full" else "queue-free"] }
+  | some "inbound" =>
+    -- accepted inbound offers: a slot each while the node waits for the announced connection, all back afterwards
+    let limit := kvNat toks "limit"
+    let n := kvNat toks "n"
+    let kind := kv toks "kind"
+    let acc := ",".intercalate (List.replicate n "conn=1")
+    let expectFree := if kind == "pending" then limit - n else limit
+    { model := s!"{acc} free={expectFree}",
+      monitor := if kv it "free" != toString expectFree then [if kind == "pending" then "slot_held_while_waiting_for_connection" else "slot_returned_inbound_" ++ kind] else [],
+      tags := ["inbound", kind] }
   | some "e2e" =>
     let limit := kvNat toks "limit"
     { model := s!"free_out={limit} free_in={limit} sent_ge1=1 arrived_ge1=1",
